@@ -2,6 +2,7 @@ import Driver.Util
 import MdspanVerif.Model.LayoutM
 import MdspanVerif.Model.SubM
 import MdspanVerif.Model.Adm
+import MdspanVerif.Model.SubMapM
 /-! `sub` op family: machine-layer mirror of `submdspan_mapping` (repaired tree). -/
 open Mdspan
 
@@ -29,43 +30,6 @@ def SliceI.wrapT (T : ITy) : SliceI → SliceI
   | .full => .full
   | .strided o x s => .strided (T.wrap o) (T.wrap x) (T.wrap s)
 
-structure SubRes where
-  off : Int
-  exts : List Int
-  kind : String
-  strs : List Int
-
-def subMapping (T : ITy) (kind : String) (es ss : List Int) (sls : List SliceI) : M SubRes := do
-  let n := es.length
-  let kinds := sls.map SliceI.toKind
-  let xs ← subExtsM T sls es
-  let keep := match kind with
-    | "left" => preserveLeft kinds
-    | "right" => preserveRight kinds
-    | _ => false
-  let fs := sls.map (fun s => T.wrap s.first)
-  let offv ← (if anyAtEndI sls es then
-      (match kind with
-        | "stride" => spanStrideM T es ss
-        | _ => spanLRM T es)
-    else
-      (match kind with
-        | "left" => leftOffM T es fs
-        | "right" => rightOffM T es fs
-        | _ => strideOffM T fs ss))
-  let off := ITy.u64.wrap offv
-  let m := xs.length
-  if keep then do
-    let strs ← (List.range m).mapM (fun r => if kind == "left" then leftStrideM T xs r else rightStrideM T xs r)
-    pure { off := off, exts := xs, kind := kind, strs := strs }
-  else do
-    let src ← (match kind with
-      | "left" => (List.range n).mapM (fun r => leftStrideM T es r)
-      | "right" => (List.range n).mapM (fun r => rightStrideM T es r)
-      | _ => pure ss)
-    let strs ← subStridesM T true sls src
-    pure { off := off, exts := xs, kind := "stride", strs := strs }
-
 /-- all multi-indices inside `es`, row-major -/
 def allIdx : List Int → List (List Int)
   | [] => [[]]
@@ -80,36 +44,9 @@ def subAlias (T : ITy) (r : SubRes) : M (List Int) :=
       | _ => strideOffM T js r.strs)
     pure (ITy.u64.wrap (r.off + ITy.u64.wrap v)))
 
-def toSlice : SliceI → Option Slice
-  | .idx i => if i < 0 then none else some (.idx i.toNat)
-  | .range b e => if b < 0 || e < 0 then none else some (.range b.toNat e.toNat)
-  | .full => some .full
-  | .strided o x s => if o < 0 || x < 0 || s < 0 then none else some (.strided o.toNat x.toNat s.toNat)
-
-def slicesValidB : List Slice → List Nat → Bool
-  | [], [] => true
-  | sl :: sls, e :: es =>
-    (match sl with
-      | .idx i => i < e
-      | .range b e' => b ≤ e' && e' ≤ e
-      | .full => true
-      | .strided o x s => o + x ≤ e && (x == 0 || 0 < s)) && slicesValidB sls es
-  | _, _ => false
-
-def subAdm (T : ITy) (kind : String) (es ss : List Int) (sls : List SliceI) : Bool :=
-  if es.any (· < 0) || ss.any (· < 0) then false else
-  let esN := es.map Int.toNat
-  let L : Layout := match kind with
-    | "left" => .left esN
-    | "right" => .right esN
-    | _ => .stride esN (ss.map Int.toNat)
-  match sls.mapM toSlice with
-  | none => false
-  | some sl => L.admB T && slicesValidB sl esN
-
 def subOp (T : ITy) (kind : String) (es ss : List Int) (sls : List SliceI) (op : String) : String :=
   if op == "adm" then s!"ok {fmtB (subAdm T kind es ss sls)}" else
-  match subMapping T kind es ss sls with
+  match subMappingM T kind es ss sls with
   | .ok r =>
     if op == "alias" then showL (subAlias T r)
     else
@@ -136,11 +73,34 @@ def subLine (kind ty : String) (rest : List String) : String :=
     match sl.mapM parseSlice with
     | some sls =>
       let op := (plainToks rest).headD "info"
-      if op == "mds" then
+      if op == "ch" || op == "chadm" then
+        -- a view of a view: second level = one strided_slice per dimension of the first result (`sl2=`), reported relative to the root
+        let sl2 := ((getKey rest "sl2").getD "").splitOn ";"
+        match (if (getKey rest "sl2").getD "-" == "-" then some [] else sl2.mapM parseSlice) with
+        | none => "bad-op"
+        | some sls2 =>
+          let l1 := sls.map (SliceI.wrapT T); let l2 := sls2.map (SliceI.wrapT T)
+          if op == "chadm" then s!"ok {fmtB (subChainAdm T kind es ss [l1, l2])}" else
+          let r : M String := do
+            let r1 ← subMappingM T kind es ss l1
+            let sp1 ← (match r1.kind with
+              | "stride" => spanStrideM T r1.exts r1.strs
+              | _ => spanLRM T r1.exts)
+            let r2 ← subMappingM T r1.kind r1.exts r1.strs l2
+            let rr ← subChainM T { off := 0, exts := es, kind := kind, strs := ss } [l1, l2]
+            let sp ← (match rr.kind with
+              | "stride" => spanStrideM T rr.exts rr.strs
+              | _ => spanLRM T rr.exts)
+            let al ← subAlias T rr
+            pure (s!"off={rr.off} ext={fmtL rr.exts} kind={rr.kind} str={fmtL rr.strs} span={sp} l1off={r1.off} l1span={sp1} l2off={r2.off} " ++ showL (pure al))
+          match r with
+          | .ok s => s
+          | .error e => ubStr e
+      else if op == "mds" then
         -- mdspan-level submdspan: data handle = accessor.offset(handle, offset) (exactly one call), accessor = offset_policy(accessor)
         let h : Int := (((getKey rest "h").getD "0").toInt?).getD 0
         let id : Int := (((getKey rest "id").getD "0").toInt?).getD 0
-        match subMapping T kind es ss (sls.map (SliceI.wrapT T)) with
+        match subMappingM T kind es ss (sls.map (SliceI.wrapT T)) with
         | .ok r => s!"h={h + r.off} acc={id} n=1 log={-1 - h},{r.off} same=1 ext={fmtL r.exts}"
         | .error e => ubStr e
       else subOp T kind es ss (sls.map (SliceI.wrapT T)) op
